@@ -305,7 +305,8 @@ def main(modname: str, argv):
         else:
             unknown.append(v)
 
-    os.makedirs(os.path.join(VERIF, "replays", pid), exist_ok=True)
+    OUT = os.environ.get("PV_OUT") or VERIF  # mutation runs against scratch copies write their outputs elsewhere
+    os.makedirs(os.path.join(OUT, "replays", pid), exist_ok=True)
     out_lines = []
     for mech in sorted(known):
         vs = known_seen.get(mech, [])
@@ -317,7 +318,7 @@ def main(modname: str, argv):
     for mech, vs in sorted(seen_mech.items()):
         v = vs[0]
         path = os.path.join("replays", pid, f"{mech.replace('/', '_').replace(' ', '_')[:60]}-{digest(v)}.json")
-        with open(os.path.join(VERIF, path), "w") as f:
+        with open(os.path.join(OUT, path), "w") as f:
             json.dump({"property": pid, "mech": mech, "msg": v["msg"], "witness": v.get("witness"),
                        "spec": v.get("case"), "count": len(vs)}, f, indent=1, default=str)
         out_lines.append(f"VIOLATION property={pid} replay={path} mech={mech} n={len(vs)} :: {v['msg'][:300]}")
@@ -368,8 +369,8 @@ def main(modname: str, argv):
         "violations": len(unknown),
     }
     if not a.only:
-        os.makedirs(os.path.join(VERIF, "evidence"), exist_ok=True)
-        with open(os.path.join(VERIF, "evidence", f"{pid}.json"), "w") as f:
+        os.makedirs(os.path.join(OUT, "evidence"), exist_ok=True)
+        with open(os.path.join(OUT, "evidence", f"{pid}.json"), "w") as f:
             json.dump(ev, f, indent=1, default=str)
 
     for ln in out_lines:
